@@ -137,7 +137,7 @@ def run_unit(name, path, devs, tier, seed, workdir, only_props=None, verus_extra
     res['verus_cmd'] = vr['cmd'].replace(workdir, '<scratch>')
     ev = verus.evaluate(vr, meta)
     res['smt_s'] = (ev['smt_ms'] or 0) / 1000.0
-    if not ev['have_json'] or ev['vir_error'] or ev['hard']:
+    if not ev['have_json'] or ev['vir_error'] or ev['hard'] or ev['crashed']:
         res['status'] = 'undecided'
         msgs = [h['rendered'] or h['message'] for h in ev['hard']][:5]
         if not msgs:
@@ -170,6 +170,20 @@ def run_unit(name, path, devs, tier, seed, workdir, only_props=None, verus_extra
         if item.get('canary', True) and key not in ev['canary_failed']:
             res['status'] = 'undecided'
             res['notes'].append('vacuity: canary twin of %s (ensures false) was NOT rejected' % key)
+        # ground truth per function from Verus' own function breakdown
+        okflag = None
+        for k, v in ev['fn_success'].items():
+            short = k.split('::', 1)[1] if '::' in k else k
+            if short == vname:
+                okflag = v
+        if okflag is False and not failed:
+            res['status'] = 'undecided'
+            res['notes'].append('%s: Verus reports the function as not verified but no diagnostic could be attributed to it' % key)
+        if okflag is None and ev['rc'] != 0 and not failed and not ev['failures'] and len(ev['canary_failed']) == 0:
+            res['status'] = 'undecided'
+            res['notes'].append('%s: no verification result for this function (verifier stopped early?)' % key)
+        if okflag is True and failed:
+            res['notes'].append('%s: diagnostics attributed although Verus reports success (kept as failures)' % key)
         for ob in obs:
             oid = '%s/%s/%s' % (name, key, ob)
             rec = {'id': oid, 'backend': 'verus+z3', 'props': props, 'time_s': round(tsec, 4),
